@@ -91,6 +91,14 @@ NextA ==
         \/ Valid(Inv(X)) /\ tv' = [op |-> "AdInv", a |-> <<X>>, exp |-> AdByConj(Inv(X))]
         \/ X \in AdPairs(tv.fam) /\ \E Y \in AdPairs(tv.fam) : Valid(Y) /\ Valid(Prod(X, Y))
               /\ tv' = [op |-> "AdHom", a |-> <<X, Y>>, exp |-> RMMul(AdByConj(X), AdByConj(Y))]
+  (* Euler B321: products / inverses whose RESULT sits exactly on a gimbal pole go through the
+     band logic of from_Matrix; C04 states no exclusion, so they are compared with the documented
+     band tolerance (2e-3) instead of being dropped *)
+  \/ /\ tv.op = "seedX" /\ tv.fam = 4
+     /\ LET X == tv.a[1] IN
+        \/ \E Y \in SO3Set("euler", QL1) : Valid(Y) /\ AtGimbalPole(QMul(X.q, Y.q))
+              /\ tv' = [op |-> "AdHomPole", a |-> <<X, Y>>, exp |-> RMMul(AdByConj(X), AdByConj(Y))]
+        \/ AtGimbalPole(QConj(X.q)) /\ tv' = [op |-> "AdInvPole", a |-> <<X>>, exp |-> AdByConj([X EXCEPT !.q = QConj(X.q)])]
   \/ /\ tv.op = "seedx"
      /\ LET kind == tv.kind k0 == K0(tv.kind) x == tv.x IN
         \/ tv' = [op |-> "ad", kind |-> kind, x |-> x, exp |-> adm(k0, x), wedge |-> Wedge(k0, x)]
